@@ -121,6 +121,8 @@ struct Outcome {
   bool nontrivial = false;
   std::vector<std::string> classes;
   std::map<std::string, uint64_t> counters;  // summed into evidence coverage.counters
+  uint64_t weight = 1;                // executions this case stands for (fault enumeration: one per injected fault)
+  std::vector<uint64_t> digests;      // if non-empty: digests of the non-trivial sub-executions (instead of the case digest)
   void fail(const std::string &s, const std::string &m) {
     if (ok) {
       ok = false;
@@ -224,6 +226,12 @@ inline std::string ser_outcome(const Outcome &o) {
   c.push_back(Op("s", {}, o.sig));
   for (auto &x : o.classes) c.push_back(Op("c", {}, x));
   for (auto &kv : o.counters) c.push_back(Op("n", {(int64_t)kv.second}, kv.first));
+  c.push_back(Op("w", {(int64_t)o.weight}));
+  if (!o.digests.empty()) {
+    Op d("d");
+    for (auto v : o.digests) d.a.push_back((int64_t)v);
+    c.push_back(d);
+  }
   return to_text(c);
 }
 inline Outcome de_outcome(const std::string &t) {
@@ -242,6 +250,8 @@ inline Outcome de_outcome(const std::string &t) {
   for (size_t i = 2; i < c.size(); i++) {
     if (c[i].k == "c") o.classes.push_back(c[i].b);
     else if (c[i].k == "n" && !c[i].a.empty()) o.counters[c[i].b] += (uint64_t)c[i].a[0];
+    else if (c[i].k == "w" && !c[i].a.empty()) o.weight = (uint64_t)c[i].a[0];
+    else if (c[i].k == "d") for (auto v : c[i].a) o.digests.push_back((uint64_t)v);
   }
   return o;
 }
@@ -372,8 +382,11 @@ inline bool execute(const Case &c) {
     o.ok = true;
   }
   if (!S.failed) {
-    S.evals++;
-    if (o.nontrivial) {
+    S.evals += o.weight;
+    if (!o.digests.empty()) {
+      S.nontriv_evals += o.digests.size();
+      for (auto d : o.digests) S.digests.insert(d);
+    } else if (o.nontrivial) {
       S.nontriv_evals++;
       S.digests.insert(fnv(text));
     }
